@@ -199,9 +199,50 @@ func init() {
 	}
 
 	// ---------- sync (locks are not modelled: sequential semantics) ----------
-	for _, n := range []string{"(*sync.Mutex).Lock", "(*sync.Mutex).Unlock", "(*sync.RWMutex).Lock", "(*sync.RWMutex).Unlock", "(*sync.RWMutex).RLock", "(*sync.RWMutex).RUnlock"} {
-		extModelDoc[n] = "no-op (sequential semantics; mutual exclusion is not modelled)"
-		extModels[n] = func(e *Exec, s *State, args []Val, cc *ssa.CallCommon, setRes func(*State, Val), rest func(*State)) { rest(s) }
+	// No effect on the heap (sequential semantics; mutual exclusion is not modelled). What IS tracked is which mutexes the
+	// executing call holds, as ghost state ($mu.w / $mu.r : Ref -> Bool, keyed by the mutex's address), so that contracts
+	// can state guarded-by facts with muheld(x) / murheld(x).
+	muRef := func(e *Exec, v Val) (string, bool) {
+		switch x := v.(type) {
+		case Scalar:
+			return x.T, true
+		case HeapAddr:
+			return e.scalarOf(x).T, true
+		}
+		return "", false
+	}
+	muSet := func(fam string, val func(e *Exec, s *State, cc *ssa.CallCommon, old string, setRes func(*State, Val)) string) func(e *Exec, s *State, args []Val, cc *ssa.CallCommon, setRes func(*State, Val), rest func(*State)) {
+		return func(e *Exec, s *State, args []Val, cc *ssa.CallCommon, setRes func(*State, Val), rest func(*State)) {
+			if r, ok := muRef(e, args[0]); ok {
+				old := fmt.Sprintf("(%s %s)", e.cur(s, fam, []string{"Ref"}, "Bool"), r)
+				e.hwrite(s, fam, []string{"Ref"}, "Bool", []string{r}, val(e, s, cc, old, setRes))
+			} else if cc.Signature().Results().Len() == 1 {
+				setRes(s, e.symbolic(s, cc.Signature().Results().At(0).Type(), "trylock"))
+			}
+			rest(s)
+		}
+	}
+	constVal := func(v string) func(e *Exec, s *State, cc *ssa.CallCommon, old string, setRes func(*State, Val)) string {
+		return func(e *Exec, s *State, cc *ssa.CallCommon, old string, setRes func(*State, Val)) string { return v }
+	}
+	tryVal := func(e *Exec, s *State, cc *ssa.CallCommon, old string, setRes func(*State, Val)) string {
+		b := e.symbolic(s, cc.Signature().Results().At(0).Type(), "trylock").(Scalar)
+		setRes(s, b)
+		return fmt.Sprintf("(or %s %s)", old, b.T)
+	}
+	for n, m := range map[string]func(e *Exec, s *State, args []Val, cc *ssa.CallCommon, setRes func(*State, Val), rest func(*State)){
+		"(*sync.Mutex).Lock": muSet("$mu.w", constVal("true")), "(*sync.Mutex).Unlock": muSet("$mu.w", constVal("false")), "(*sync.Mutex).TryLock": muSet("$mu.w", tryVal),
+		"(*sync.RWMutex).Lock": muSet("$mu.w", constVal("true")), "(*sync.RWMutex).Unlock": muSet("$mu.w", constVal("false")), "(*sync.RWMutex).TryLock": muSet("$mu.w", tryVal),
+		"(*sync.RWMutex).RLock": muSet("$mu.r", constVal("true")), "(*sync.RWMutex).RUnlock": muSet("$mu.r", constVal("false")), "(*sync.RWMutex).TryRLock": muSet("$mu.r", tryVal),
+	} {
+		extModelDoc[n] = "no effect on the heap (sequential semantics; mutual exclusion is not modelled); the ghost set of mutexes held by the call is updated"
+		extModels[n] = m
+	}
+	specBuiltins["muheld"] = func(env *SpecEnv, n SCall) TV {
+		return TV{S("(%s %s)", env.e.cur(env.cur, "$mu.w", []string{"Ref"}, "Bool"), env.muArg(n.Args[0])), boolT}
+	}
+	specBuiltins["murheld"] = func(env *SpecEnv, n SCall) TV {
+		return TV{S("(%s %s)", env.e.cur(env.cur, "$mu.r", []string{"Ref"}, "Bool"), env.muArg(n.Args[0])), boolT}
 	}
 
 	initBtreeModels()
@@ -458,4 +499,19 @@ func (e *Exec) iterCallOrd(cc *ssa.CallCommon) int {
 		}
 	}
 	return -1
+}
+
+// muArg: the address of a mutex-typed field named in a spec (l.mu): the same interior reference the models use
+func (env *SpecEnv) muArg(x SExpr) string {
+	if sel, ok := x.(SSel); ok {
+		base := env.eval(sel.X)
+		bt, ok := derefType(base.T)
+		if ok {
+			if _, isStruct := bt.Underlying().(*types.Struct); isStruct {
+				return env.e.scalarOf(HeapAddr{Ref: bterm(base), Key: structFam(bt, sel.Name)}).T
+			}
+		}
+	}
+	env.fail("muheld: the argument must be a mutex field of a pointed-to struct (x.mu)")
+	return ""
 }
